@@ -568,6 +568,31 @@ Proof.
   - constructor.
 Qed.
 
+Lemma reads_verified_partial T D os f off len fs : let s := exec H (init T D) os in
+    s_verify s = true -> s_tainted s = false ->
+    let r := read_at H s f off len fs in
+    (forall out, snd r = ROk out -> pieces_of T f out)
+    /\ s_verify (fst r) = true /\ s_tainted (fst r) = false
+    /\ (exists os', fst r = exec H (init T D) (os ++ os')).
+Proof.
+  intros s Hv Ht r.
+  destruct (read_at_verified T s f off len fs (reach_clean T D os Hv Ht)) as [Hc [[os' C] E]].
+  fold r in Hc, C, E. destruct Hc as [_ [A [_ [_ [B _]]]]].
+  split; [exact E|]. split; [exact A|]. split; [exact B|].
+  exists os'. rewrite C. unfold s. symmetry. apply exec_app.
+Qed.
+
+Lemma reads_verified_no_skip T D os f off len fs out : let s := exec H (init T D) os in
+    forallb (fun o => negb (is_skip o)) os = true ->
+    snd (read_at H s f off len fs) = ROk out -> pieces_of T f out.
+Proof.
+  intros s Hn Hr.
+  destruct (no_skip_untainted T D os Hn) as [Ht Hh]. fold s in Ht, Hh.
+  destruct (s_handle s) eqn:Eh.
+  - destruct (read_at_verified T s f off len fs (reach_clean T D os (Hh eq_refl) Ht)) as [_ [_ E]]. auto.
+  - unfold read_at in Hr. rewrite Eh in Hr. discriminate Hr.
+Qed.
+
 End WithHash.
 
 (* ---------- the known residue: a concrete history on the faithful model ---------- *)
